@@ -12,7 +12,7 @@ RULE = ("Square systems of order 2-5 with modes 2-12 (<= 2000 unknowns) from thr
         "sum_k I x..x (tridiag(-1,2,-1)+sigma I) x..x I in its rank-2 TT form, diagonally dominant = I + E with "
         "||E||_F = 0.3 and ranks 1-3; right-hand side = Gaussian TT of ranks 1-4 (not built from a low-rank solution); "
         "eps log-uniform in [1e-10,1e-3]; preconditioner None/'c'/'r'; max_full 500 (direct local solve) or 0 (iterative); "
-        "local_solver 1 (GMRES) or 2 (BiCGSTAB); x0 None or a random TT; the seed of the library's internal randomness. "
+        "local_solver 1 (GMRES; Krylov length x restarts (40,2) default, (15,6) or (10,10) so that restarted cycles really run) or 2 (BiCGSTAB); x0 None or a random TT; the seed of the library's internal randomness. "
         "Oracle: x is a TT tensor of shape b.N and ||A x - b|| <= 5 eps ||b|| with A x formed densely by the checker. "
         "Non-trivial: iterative local solver used, or preconditioner set, or x0 given.")
 BUDGET = {"quick": 1280, "thorough": 24000}
@@ -38,6 +38,7 @@ def strategy_case(draw):
             "prec": draw(st.sampled_from([None, None, "c", "r"])),
             "max_full": draw(st.sampled_from([500, 0])),
             "local_solver": draw(st.sampled_from([1, 1, 2])),
+            "gmres": draw(st.sampled_from([[40, 2], [40, 2], [15, 6], [10, 10]])),
             "Rb": draw(gen.ranks(d, 4))}
     if cls == "spd":
         case["terms"] = draw(st.integers(1, 3))
@@ -140,6 +141,8 @@ def execute(case):
     b = T.TT(core.clone_cores(bc))
     it = case["max_full"] == 0
     solver = "direct_if_small" if not it else ("gmres" if case["local_solver"] == 1 else "bicgstab")
+    if it and case["local_solver"] == 1 and case.get("gmres", [40, 2])[0] < 40:
+        ck.label("gmres_short_restarts")
     ck.label("class:" + case["class"], "prec:%s" % case["prec"], "solver:" + solver, "order:%d" % d,
              "eps_decade:%d" % int(math.floor(math.log10(eps))))
     x0 = None
@@ -148,7 +151,8 @@ def execute(case):
         x0 = T.TT(core.make_cores({"N": N, "R": case["x0_R"], "dt": "f64", "mode": "gauss", "seed": case["seed"] + 7}))
     torch.manual_seed(case["lib_seed"])
     x = lib(lambda: T.solvers.amen_solve(A, b, x0=x0, eps=eps, preconditioner=case["prec"], max_full=case["max_full"],
-                                        local_solver=case["local_solver"], use_cpp=False, verbose=False))
+                                        local_solver=case["local_solver"], use_cpp=False, verbose=False,
+                                        local_iterations=case.get("gmres", [40, 2])[0], resets=case.get("gmres", [40, 2])[1]))
     if not ck.require(isinstance(x, T.TT) and not x.is_ttm and [int(n) for n in x.N] == list(N), "shape",
                       "solution kind/shape wrong: %s" % (getattr(x, "N", type(x)),)):
         return ck.verdict()
